@@ -103,7 +103,7 @@ class IVFCLevel4Reader(RawIOBase):
             return b''
 
         remaining = self._lv4.size - self._seek
-        if size < 0 or size > remaining:
+        if size is None or size < 0 or size > remaining:
             size = remaining
         if size == 0:
             return b''
